@@ -94,7 +94,15 @@ fn make_scenario_ex(p: &props::PropDef, tier: &str, base: u64, index: u64) -> (S
             let gp = props::get(p.extra_profiles[(slot - n) as usize]).expect("unknown extra profile");
             let mut g = sgen::G::new(run_seed(base, p.id, simrt::mix(round / gp.block.max(1), slot)), true);
             let mut sc = (gp.generate)(&mut g, round);
-            sc.profile = gp.id.to_string();
+            if sc.profile.is_empty() {
+                sc.profile = gp.id.to_string();
+            }
+            // a generator may hand a share of its runs to another profile's generator (and says so
+            // in the tag): this oracle judges those only if it is sound on that profile as well
+            if sc.profile != p.id && !p.extra_profiles.contains(&sc.profile.as_str()) {
+                let mut g = sgen::G::new(run_seed(base, p.id, simrt::mix(round, slot) / p.block.max(1)), true);
+                sc = (p.generate)(&mut g, round);
+            }
             (sc, None)
         } else {
             let own = round * n + slot;
